@@ -102,15 +102,18 @@ impl TryFrom<&str> for FeelYearsAndMonthsDuration {
     if let Some(captures) = RE_YEARS_AND_MONTHS.captures(value) {
       let mut is_valid = false;
       let mut total_months = 0_i64;
+      // the total number of months must fit in i64, otherwise the literal is invalid
+      let out_of_range = || err_invalid_years_and_months_duration_literal(value);
       if let Some(years_match) = captures.name("years") {
         if let Ok(years) = years_match.as_str().parse::<u64>() {
-          total_months += (years as i64) * MONTHS_IN_YEAR;
+          let months_in_years = i64::try_from(years).ok().and_then(|years| years.checked_mul(MONTHS_IN_YEAR));
+          total_months = months_in_years.and_then(|months| total_months.checked_add(months)).ok_or_else(out_of_range)?;
           is_valid = true;
         }
       }
       if let Some(months_match) = captures.name("months") {
         if let Ok(months) = months_match.as_str().parse::<u64>() {
-          total_months += months as i64;
+          total_months = i64::try_from(months).ok().and_then(|months| total_months.checked_add(months)).ok_or_else(out_of_range)?;
           is_valid = true;
         }
       }
